@@ -50,7 +50,7 @@ def declared_ratios(spec, tr):
     for nm in tr['names'][1:]:
         idx = names.index(nm) + 1
         r = None
-        for rel in spec['rels']:
+        for rel in sim.all_rels(spec):
             if rel[2] == idx:
                 r = 1.0 if rel[0] == 'joint' else teeth(rel[2]) / teeth(rel[1])
         out.append(r)
@@ -229,7 +229,7 @@ def spec_self_locking(spec, tr):
     names = [e.get('name', f'e{i + 1}') for i, e in enumerate(spec['elems'])]
     chain = set(tr['names'][1:])
     res = False
-    for rel in spec['rels']:
+    for rel in sim.all_rels(spec):
         if rel[0] != 'worm':
             continue
         a, b = spec['elems'][rel[1] - 1], spec['elems'][rel[2] - 1]
@@ -413,7 +413,7 @@ ORACLES = {'C01': oracle_C01, 'C02': oracle_C02, 'C03': oracle_C03, 'C11': oracl
 # campaigns
 # ---------------------------------------------------------------------------------------------
 
-def dynamics_spec(rng, ctx, *, sl_bias=0.35, schedule=True, kind=None, same_solver=None):
+def dynamics_spec(rng, ctx, *, sl_bias=0.35, schedule=True, kind=None, same_solver=None, redeclare=None):
     """a random model with a short schedule (whole-history correspondence: <= 16 steps in total)"""
     ru = rng.random() < 0.7
     spec = gen.gen_spec(rng, random_units=ru, sl_bias=sl_bias, reuse=0.25)
@@ -451,7 +451,32 @@ def dynamics_spec(rng, ctx, *, sl_bias=0.35, schedule=True, kind=None, same_solv
         op['stop'] = random_stop(rng, spec)
         ops = [op]
     spec['ops'] = ops
+    if redeclare is None:
+        redeclare = rng.random() < 0.15
+    if redeclare:
+        inject_redeclare(rng, spec, ops)
     return spec
+
+
+def inject_redeclare(rng, spec, ops):
+    """the relation of one gear pair is declared again after the Powertrain and the Solver exist (an efficiency
+    sweep, or a pair first joined rigidly and then mated): same elements, new efficiency / ratio / roles.
+    Changes the spec's initial declaration and inserts the `redeclare` op into `ops`; returns True if done."""
+    gears = [k for k, r in enumerate(spec['rels']) if r[0] == 'gear']
+    if not gears:
+        return False
+    k = rng.choice(gears)
+    final = list(spec['rels'][k])
+    if rng.random() < 0.5:
+        spec['rels'][k] = ['joint', final[1], final[2]]
+    else:
+        spec['rels'][k] = final[:3] + [rng.choice([1.0, gen.dy(rng, 0.3, 1.0, 4)])]
+    at = 0
+    for i, op in enumerate(ops):
+        if op['op'] in ('init', 'new') and rng.random() < 0.7:
+            at = i + 1
+    ops.insert(at, {'op': 'redeclare', 'rel': final})
+    return True
 
 
 def random_stop(rng, spec, thr_si=None):
@@ -1055,7 +1080,7 @@ def info_token(spec, tr, ei):
     if e['type'] == 'wormwheel':
         # the worm it is mated with (driver or driven)
         idx = spec['elems'].index(e) + 1
-        for r in spec['rels']:
+        for r in sim.all_rels(spec):
             if r[0] == 'worm' and idx in (r[1], r[2]):
                 other = r[2] if r[1] == idx else r[1]
                 mate = str(1 if spec['elems'][other - 1].get('d') is not None else 0)
